@@ -1905,7 +1905,10 @@ class OALParser(object):
         '''instance_name : variable_name
                          | SELF
         '''
-        p[0] = p[1]
+        if p.slice[1].type == 'SELF':
+            p[0] = p[1].lower() # keywords are case insensitive
+        else:
+            p[0] = p[1]
         
     @track_production
     def p_identifier(self, p):
